@@ -129,7 +129,7 @@ func C09(c *Ctx, r *report.Run) error {
 	// the same cases against the generated TS server (single-file units: one server module per unit)
 	var tsUnits []rt.JobUnit
 	for _, ju := range units {
-		if u := w.Unit(ju.Name); u != nil && len(u.Spec.Files) == 1 {
+		if u := w.Unit(ju.Name); u != nil && oneServiceFile(u.Spec) && !hasTag(u.Spec, "genonly") {
 			tsUnits = append(tsUnits, ju)
 		}
 	}
@@ -165,7 +165,7 @@ func C02(c *Ctx, r *report.Run) error {
 	// the same cases against the generated TS server (single-file units: one server module per unit)
 	var tsUnits []rt.JobUnit
 	for _, ju := range units {
-		if u := w.Unit(ju.Name); u != nil && len(u.Spec.Files) == 1 {
+		if u := w.Unit(ju.Name); u != nil && oneServiceFile(u.Spec) && !hasTag(u.Spec, "genonly") {
 			tsUnits = append(tsUnits, ju)
 		}
 	}
